@@ -77,7 +77,7 @@ def dump(typ, val, tb, include_local_traceback, include_local_version):
     tbtext = tbtext.encode("utf8", "backslashreplace").decode("utf8")
     attrs = []
     args = []
-    ignored_attrs = frozenset(["_remote_tb", "with_traceback"])
+    ignored_attrs = frozenset(["_remote_tb", "with_traceback", "add_note"])
     for name in dir(val):
         if name == "args":
             for a in val.args:
